@@ -26,6 +26,7 @@ Rules applied to extracted text (recorded in evidence as coverage.extraction.dro
   7 (opt-in) `for P in E` -> `for P in it: E` (names the iterator so an invariant can mention it)
   8 (per item, `| noattrs attrs=..`) the attribute list of an item is replaced (derive lists naming traits of opaque types)
   9 (opt-in, `assoc X`) `Self::X` in a fn taken from a trait impl -> the impl's `type X = T` right-hand side
+ 11 (opt-in, `name_wildcard_closure_params`) closure parameter `|_|` -> `|_w|`
  10 (opt-in, `unpin_receiver`) `self: Pin<&mut Self>` -> `&mut self`; `let this = Pin::into_inner(self);` deleted and the
     alias `this` renamed to `self`
 """
@@ -186,6 +187,7 @@ def build(template_path, repo, out_path, drop_tags=()):
             ret = None
             assoc = None
             unpin = False
+            wild = False
             tailc = False
             contract = []
             loopspec = {}
@@ -206,6 +208,8 @@ def build(template_path, repo, out_path, drop_tags=()):
                         assoc = d[6:].strip()
                     elif d == "unpin_receiver":
                         unpin = True
+                    elif d == "name_wildcard_closure_params":
+                        wild = True
                     elif d.startswith("name "):
                         oname = d[5:].strip()
                     elif d.startswith("loop "):
@@ -267,6 +271,15 @@ def build(template_path, repo, out_path, drop_tags=()):
                     if ltoks[k2].t == "Self" and ltoks[k2 + 1].t == "::" and ltoks[k2 + 2].t == assoc:
                         edits.append((ltoks[k2].s, ltoks[k2 + 2].e, rhs))
                         unit.drops["assoc_types_substituted"] = unit.drops.get("assoc_types_substituted", 0) + 1
+            if wild:
+                # rule 11: a closure whose only parameter is the wildcard pattern, `|_| e`, becomes `|_w| e`
+                # (Verus accepts only variable patterns as closure parameters); the parameter is unused either way.
+                nw = 0
+                for k in range(len(ltoks) - 2):
+                    if ltoks[k].t == "|" and ltoks[k + 1].t == "_" and ltoks[k + 2].t == "|":
+                        edits.append((ltoks[k + 1].s, ltoks[k + 1].e, "_w"))
+                        nw += 1
+                unit.drops["wildcard_closure_params_named"] = unit.drops.get("wildcard_closure_params_named", 0) + nw
             if unpin:
                 # rule 10: receiver `self: Pin<&mut Self>` -> `&mut self`; the alias statement
                 # `let this = Pin::into_inner(self);` is deleted and every identifier token `this` becomes `self`.
